@@ -21,7 +21,7 @@ pub static DEF: PropDef = PropDef {
         "structural deviations are never required to be rejected: the oracle is 'accepted => re-encodes to the input'",
     ],
     shards: (32, 128),
-    budget_ms: (5_000, 20_000),
+    budget_ms: (60_000, 180_000),
 };
 
 #[derive(Clone, Copy, Debug, PartialEq, Eq)]
